@@ -283,6 +283,8 @@ pub fn hostile_objects() -> Vec<(u64, Val)> {
     cs.set("CS5", Val::Array(vec![Val::name("Indexed"), Val::Array(vec![Val::name("Indexed"), Val::name("DeviceRGB"), Val::Int(1), Val::Str(vec![0, 0, 0, 9, 9, 9])]), Val::Int(1), Val::Str(vec![0, 1])]));
     cs.set("CS6", Val::Array(vec![Val::name("Separation"), Val::name("Two"), Val::Array(vec![Val::name("ICCBased"), Val::r(35)]), Val::r(64)]));
     cs.set("CS7", Val::Array(vec![Val::name("Separation"), Val::name("Smp"), Val::name("DeviceGray"), Val::r(63)]));
+    // colour spaces stored as objects of their own, each naming the next as its alternate / base
+    cs.set("CS10", Val::r(85));
     res.1.set("ColorSpace", cs);
     let mut xo = res.1.get("XObject").unwrap().clone();
     xo.set("Im3", Val::r(67));
@@ -302,6 +304,9 @@ pub fn hostile_objects() -> Vec<(u64, Val)> {
     res.1.set("ExtGState", gs);
     o.push((77, Val::stream(vec![("Type", Val::name("XObject")), ("Subtype", Val::name("Image")), ("Width", Val::Int(8)), ("Height", Val::Int(1)), ("ColorSpace", Val::name("DeviceGray")), ("BitsPerComponent", Val::Int(1)), ("Filter", Val::name("JBIG2Decode")), ("DecodeParms", Val::dict(vec![("JBIG2Globals", Val::r(78))]))], vec![0, 0, 0, 0])));
     o.push((78, Val::stream(vec![], vec![0, 0, 0, 1])));
+    o.push((85, Val::Array(vec![Val::name("DeviceN"), Val::Array(vec![Val::name("A"), Val::name("B")]), Val::r(86), Val::r(65)])));
+    o.push((86, Val::Array(vec![Val::name("Separation"), Val::name("Spot"), Val::r(87), Val::r(64)])));
+    o.push((87, Val::Array(vec![Val::name("Indexed"), Val::name("DeviceRGB"), Val::Int(1), Val::Str(vec![0, 0, 0, 255, 255, 255])])));
     o.push((60, Val::stream(vec![("Length", Val::r(61))], b"indirect length".to_vec())));
     o.push((61, Val::Int(15)));
     o.push((62, Val::stream(vec![("FunctionType", Val::Int(4)), ("Domain", Val::ints(&[0, 1])), ("Range", Val::ints(&[0, 1, 0, 1, 0, 1]))], b"{ dup dup 0.5 mul exch }".to_vec())));
